@@ -115,7 +115,8 @@ var primByID = func() map[string]cadence.Type {
 }()
 
 type reader struct {
-	open map[string]cadence.Type // composite types declared so far in the current type tree, by ID (for rec)
+	open map[string]cadence.Type // enclosing composite types by ID (for rec)
+	memo map[string]cadence.Type // printed form -> type: equal declarations inside one root share one pointer
 }
 
 func bad(format string, args ...any) { panic(fmt.Errorf(format, args...)) }
@@ -231,6 +232,10 @@ func (r *reader) typ(n *node) cadence.Type {
 		}
 		return t
 	case "comp":
+		key := n.String()
+		if t, ok := r.memo[key]; ok {
+			return t
+		}
 		kind := k[1].atom
 		id := r.str(k[2])
 		loc, qid := decodeLoc(id)
@@ -307,6 +312,8 @@ func (r *reader) typ(n *node) cadence.Type {
 		} else {
 			setInterfaceTypeFields(it, fs)
 		}
+		delete(r.open, id)
+		r.memo[key] = res
 		return res
 	}
 	bad("bad type %s", n.head())
@@ -327,7 +334,7 @@ func addrOf(s string) cadence.Address {
 
 // root reads one embedded type tree
 func (r *reader) root(n *node) cadence.Type {
-	return (&reader{open: map[string]cadence.Type{}}).typ(n)
+	return (&reader{open: map[string]cadence.Type{}, memo: map[string]cadence.Type{}}).typ(n)
 }
 
 func (r *reader) val(n *node) cadence.Value {
@@ -449,7 +456,7 @@ func ParseValue(s string) (v cadence.Value, err error) {
 	if err != nil {
 		return nil, err
 	}
-	r := &reader{open: map[string]cadence.Type{}}
+	r := &reader{open: map[string]cadence.Type{}, memo: map[string]cadence.Type{}}
 	return r.val(n), nil
 }
 
@@ -464,6 +471,78 @@ func ParseType(s string) (t cadence.Type, err error) {
 	if err != nil {
 		return nil, err
 	}
-	r := &reader{open: map[string]cadence.Type{}}
+	r := &reader{open: map[string]cadence.Type{}, memo: map[string]cadence.Type{}}
 	return r.typ(n), nil
+}
+
+// ---- permutation of order-insensitive parts (on the S-expression tree) ----
+
+func (n *node) String() string {
+	if n.list {
+		parts := make([]string, len(n.kids))
+		for i, k := range n.kids {
+			parts[i] = k.String()
+		}
+		return "(" + joinSp(parts) + ")"
+	}
+	if n.isStr {
+		return Str(n.str)
+	}
+	return n.atom
+}
+
+func joinSp(parts []string) string {
+	out := ""
+	for i, p := range parts {
+		if i > 0 {
+			out += " "
+		}
+		out += p
+	}
+	return out
+}
+
+// Permute returns the S-expression of the same value with the entries of every dictionary, the
+// members of every intersection type and the entitlements of every entitlement set shuffled by
+// `shuffle` (which permutes indices 0..n-1 in place).  ok is false when nothing could be permuted
+// or the result cannot be read back (a (rec id) moved before its declaration).
+func Permute(sx string, shuffle func(n int, swap func(i, j int))) (string, bool) {
+	root, err := parseSx(sx)
+	if err != nil {
+		return "", false
+	}
+	changed := false
+	var walk func(n *node)
+	walk = func(n *node) {
+		if !n.list {
+			return
+		}
+		from := -1
+		switch n.head() {
+		case "dictv":
+			from = 2
+		case "inter", "conj", "disj":
+			from = 1
+		}
+		if from >= 0 && len(n.kids)-from > 1 {
+			sub := n.kids[from:]
+			shuffle(len(sub), func(i, j int) { sub[i], sub[j] = sub[j], sub[i] })
+			changed = true
+		}
+		for _, k := range n.kids {
+			walk(k)
+		}
+	}
+	walk(root)
+	if !changed {
+		return "", false
+	}
+	out := root.String()
+	if out == sx {
+		return "", false
+	}
+	if _, err := ParseValue(out); err != nil {
+		return "", false
+	}
+	return out, true
 }
